@@ -219,7 +219,11 @@ func (s *Session) verifyKey(key string, con *Contract) *Unit {
 
 func (s *Session) solveAll() {
 	var wg sync.WaitGroup
-	sem := make(chan struct{}, 14)
+	nconc := 14
+	if s.tier == "thorough" {
+		nconc = 5
+	}
+	sem := make(chan struct{}, nconc)
 	n := 0
 	run := func(o *Obligation) {
 		if o == nil || o.Script == "" {
@@ -232,7 +236,11 @@ func (s *Session) solveAll() {
 			defer wg.Done()
 			sem <- struct{}{}
 			defer func() { <-sem }()
-			o.Result = solve(s.outDir, fmt.Sprintf("o%d", id), o.Script, s.timeoutS)
+			if s.tier == "thorough" {
+				o.Result = solveAgree(s.outDir, fmt.Sprintf("o%d", id), o.Script, s.timeoutS)
+			} else {
+				o.Result = solve(s.outDir, fmt.Sprintf("o%d", id), o.Script, s.timeoutS)
+			}
 		}()
 	}
 	for _, u := range s.units {
